@@ -193,6 +193,20 @@ where
     {
         use crate::util::Consume;
 
+        // A detach from the remote peer that the application has already been told about (through
+        // `on_detach()`) but that nobody has answered yet is answered in kind now
+        match self.local_state {
+            LinkState::DetachReceived => {
+                self.send_detach(writer, false, None).await?;
+                return Err(LinkStateError::RemoteDetached);
+            }
+            LinkState::CloseReceived => {
+                self.send_detach(writer, true, None).await?;
+                return Err(LinkStateError::RemoteClosed);
+            }
+            _ => {}
+        }
+
         // A detach from the remote peer that is already waiting must be seen (and answered)
         // before another delivery is started on the link, so poll for it first
         tokio::select! {
